@@ -105,14 +105,25 @@ def main():
     if a.keep:
         dst = "/verif/seeded/%s-%s" % (a.prop, a.mut)
         os.makedirs(dst, exist_ok=True)
-        shutil.copy(patch, os.path.join(dst, "patch.diff"))
-        for d in os.listdir(src):
-            if d.endswith(".go") or d == "README.md":
-                shutil.copy(os.path.join(src, d), os.path.join(dst, d))
+        if os.path.realpath(src) != os.path.realpath(dst):
+            shutil.copy(patch, os.path.join(dst, "patch.diff"))
+            for d in os.listdir(src):
+                if d.endswith(".go") or d == "README.md":
+                    shutil.copy(os.path.join(src, d), os.path.join(dst, d))
+        old = {}
+        if os.path.exists(os.path.join(dst, "meta.json")):
+            try:
+                old = json.load(open(os.path.join(dst, "meta.json")))
+            except ValueError:
+                old = {}
         meta = {"property": a.prop, "breaks": "see README.md", "validated": {k: res.get(k) for k in ("applies", "builds", "suite_passes_with_patch", "demo_ok")},
                 "ran": ["git apply patch.diff (scratch worktree of /repo HEAD)", "go build ./...", "go test -vet=off -count=1 ./... (unedited suite)",
                         "demonstration with and without the patch"] + ["VERIF_REPO=<worktree> ./check %s --tier %s" % (c, a.tier) for c in checks],
-                "caught_by": res.get("caught_by"), "check_lines": {c: v["lines"][:3] for c, v in res["checks"].items()}}
+                "caught_by": res.get("caught_by"), "check_lines": {c: v["lines"][:3] for c, v in res["checks"].items()},
+                "validated_on": subprocess.run("git -C /repo rev-parse --short HEAD", shell=True, stdout=subprocess.PIPE, text=True).stdout.strip()}
+        for k in ("origin", "needs", "superseded", "breaks"):
+            if k in old and (k not in meta or meta[k] == "see README.md"):
+                meta[k] = old[k]
         json.dump(meta, open(os.path.join(dst, "meta.json"), "w"), indent=1)
     return 0
 
